@@ -89,7 +89,7 @@ def evaluate(case, obs):
     for ev in obs.events:
         op = ev["op"]
         if op == "assigned":
-            n_assigned += 1
+            n_assigned += 2 if ev.get("manual") else 1      # a second assign() call always replaces the first
             if n_assigned > 1 and k in ev["tps"]:
                 # re-assignment: partition state is new, the start rule applies again (nothing was committed meanwhile)
                 out.label("reassigned_same_partition")
@@ -455,6 +455,25 @@ def reassigned_cases(shard, nshards):
                 yield case
 
 
+def manual_reassign_cases(shard, nshards):
+    """assign() is called a second time (same partition) after the consumer has read from the first assignment: with or
+    without a group the partition starts again from the committed offset / the reset policy."""
+    i = 0
+    for g in GRID:
+        if g[3] not in ("assign_group", "groupless_assign") or g[4] != 3:
+            continue
+        for seek in (False, True):
+            i += 1
+            if i % nshards != shard:
+                continue
+            case = make_case(g, seek, 0.0, 0.6, [], [0.001], 23, 0.01)
+            ops = case["tasks"][0]
+            case["tasks"][0] = [o for o in ops if o[0] in ("sleep", "seek")] + \
+                [["position", 0], ["getone", [0], 0.5], ["getone", [0], 0.5], ["sleep", 0.2], ["reassign"],
+                 ["position", 0], ["getone", [0], 0.5], ["getone", [0], 0.5], ["position", 0]]
+            yield case
+
+
 def _run_with_initial(case):
     return execute(case)
 
@@ -472,5 +491,6 @@ def campaigns(tier):
             Campaign("unknown_sibling", "enum", execute=execute, setup=CS.setup, exhaustive=True, cases=unknown_sibling_cases),
             Campaign("seek_to_race", "enum", execute=execute_seek_to, setup=CS.setup, exhaustive=True, cases=seek_to_cases),
             Campaign("reassigned", "enum", execute=execute, setup=CS.setup, exhaustive=True, cases=reassigned_cases),
+            Campaign("manual_reassign", "enum", execute=execute, setup=CS.setup, exhaustive=True, cases=manual_reassign_cases),
             Campaign("start_sim", "hyp", execute=execute, strategy=strategy,
                      examples=20000 if th else 1000, setup=CS.setup, max_wall=900 if th else 80, shrink_wall=30)]
